@@ -297,8 +297,12 @@ func OidBytes(oid asn1.ObjectIdentifier) []byte {
 	return bytes.Clone(asn1bytes[2:])
 }
 
-// decodes the raw OID bytes (excluding the tag/length)
-func DecodeAsn1objectId(data []byte) (oid asn1.ObjectIdentifier) {
+// parses the raw OID bytes (excluding the tag/length); error if they do not encode an object identifier
+func ParseAsn1objectId(data []byte) (oid asn1.ObjectIdentifier, err error) {
+	if len(data) > 127 {
+		return nil, fmt.Errorf("[ParseAsn1objectId] OID too long (%d bytes)", len(data))
+	}
+
 	var dataWithTag []byte
 
 	// wrap data with ASN1 OID tag (0x06)
@@ -308,6 +312,16 @@ func DecodeAsn1objectId(data []byte) (oid asn1.ObjectIdentifier) {
 
 	// attempt to parse OID
 	if rest, err := asn1.Unmarshal(dataWithTag, &oid); len(rest) > 0 || err != nil {
+		return nil, fmt.Errorf("[ParseAsn1objectId] error parsing ASN1 OID (data: %x)", data)
+	}
+
+	return oid, nil
+}
+
+// decodes the raw OID bytes (excluding the tag/length)
+func DecodeAsn1objectId(data []byte) (oid asn1.ObjectIdentifier) {
+	oid, err := ParseAsn1objectId(data)
+	if err != nil {
 		panic(fmt.Sprintf("Error parsing ASN1 OID (data: %x)", data))
 	}
 
